@@ -443,7 +443,7 @@ theorem blockMatch_P {f : F} (hf : FP e0 f) {fuel : Nat} {cfg : Cfg} {s : St} {e
     simp only at heq
     have le : LogExt s2 (enterState tn s2) := by
       unfold enterState; split
-      · exact LogExt.trans ⟨[Ev.enter _], rfl⟩ (ghostIf_rel (L env) _ _ _)
+      · exact LogExt.trans ⟨[Ev.enter _], rfl⟩ (ghostIf_log _ _ _)
       · exact LogExt.refl _
     have l2L : LogExt (enterState tn s2) sL := by
       have := blockLoop_rel (L env) hf.log cfg (blockClasses env cfg) startT sn fuel 0
@@ -496,7 +496,7 @@ theorem seqNR_P (env : Env) {f : F} (hf : FP e0 f) {q : Quirks} {cs : List Cls}
       · rename_i e' s1 h1
         simp only [Prod.mk.injEq, MRes.raise.injEq] at heq
         obtain ⟨rfl, rfl⟩ := heq
-        exact (hf.spec _ _ _ _ h1).mono (LogExt.refl _) (ghostIf_rel (L env) _ _ _)
+        exact (hf.spec _ _ _ _ h1).mono (LogExt.refl _) (ghostIf_log _ _ _)
       · simp at heq
       · rename_i t s1 h1
         have l1 : LogExt s s1 := by have := hf.log c s; rw [h1] at this; exact this
@@ -555,9 +555,29 @@ theorem main0Match_P {f : F} (hf : FP e0 f) {fuel : Nat} {cfg : Cfg} {scope : Na
       exact Prov.of_ne (lit_ne hfor (Or.inl heq.1.symm))
     · simp at heq
 
-theorem programLoop_P {f : F} (hf : FP e0 f) {unit : Cls} {fuel k : Nat} {rc : List Tree}
+theorem unitStep_P {f : F} (hf : FP e0 f) {fuel : Nat} {unit main0 : Cls} {rc : List Tree}
     {s : St} {rc' : List Tree} {e : Exc} {s' : St}
-    (heq : programLoop env f unit fuel k rc s = (.fail rc' e, s')) : Prov e0 s e s' := by
+    (heq : unitStep env f fuel unit main0 rc s = (.stop (.fail rc' e), s')) : Prov e0 s e s' := by
+  unfold unitStep at heq
+  split at heq
+  · rename_i e1 s1 h1
+    have l1 : LogExt s s1 := by have := hf.log unit s; rw [h1] at this; exact this
+    split at heq
+    · split at heq
+      · simp at heq
+      · simp at heq
+      · rename_i e2 s2 hb
+        simp only [Prod.mk.injEq, UnitStep.stop.injEq, PRes.fail.injEq] at heq
+        obtain ⟨⟨_, rfl⟩, rfl⟩ := heq
+        exact (blockMatch_P hfor horc hf hb).mono (l1.trans ⟨[_], rfl⟩) (ghostIf_log _ _ _)
+    · simp only [Prod.mk.injEq, UnitStep.stop.injEq, PRes.fail.injEq] at heq
+      obtain ⟨⟨_, rfl⟩, rfl⟩ := heq
+      exact hf.spec _ _ _ _ h1
+  · simp at heq
+
+theorem programLoop_P {f : F} (hf : FP e0 f) {unit main0 : Cls} {fuel k : Nat} {rc : List Tree}
+    {s : St} {rc' : List Tree} {e : Exc} {s' : St}
+    (heq : programLoop env f unit main0 fuel k rc s = (.fail rc' e, s')) : Prov e0 s e s' := by
   induction k generalizing rc s with
   | zero =>
     simp only [programLoop, Prod.mk.injEq, PRes.fail.injEq] at heq
@@ -565,12 +585,13 @@ theorem programLoop_P {f : F} (hf : FP e0 f) {unit : Cls} {fuel k : Nat} {rc : L
   | succ k ih =>
     simp only [programLoop] at heq
     split at heq
-    · rename_i e' s1 h1
-      simp only [Prod.mk.injEq, PRes.fail.injEq] at heq
-      obtain ⟨⟨_, rfl⟩, rfl⟩ := heq
-      exact hf.spec _ _ _ _ h1
-    · rename_i o s1 _ h1
-      have l1 : LogExt s s1 := by have := hf.log unit s; rw [h1] at this; exact this
+    · rename_i r1 s1 h1
+      simp only [Prod.mk.injEq] at heq
+      obtain ⟨rfl, rfl⟩ := heq
+      exact unitStep_P hfor horc hf h1
+    · rename_i rc1 s1 h1
+      have l1 : LogExt s s1 := by
+        have := unitStep_rel (L env) hf.log fuel unit main0 rc s; rw [h1] at this; exact this
       split at heq
       · rename_i e' s2 h2
         simp only [Prod.mk.injEq, PRes.fail.injEq] at heq
@@ -578,7 +599,7 @@ theorem programLoop_P {f : F} (hf : FP e0 f) {unit : Cls} {fuel k : Nat} {rc : L
         exact (addCID_P hfor horc h2).mono l1 (LogExt.refl _)
       · rename_i rc2 s2 h2
         have l2 : LogExt s1 s2 := by
-          have := addCID_rel (L env) fuel (pushTree o rc) s1; rw [h2] at this; exact this
+          have := addCID_rel (L env) fuel rc1 s1; rw [h2] at this; exact this
         split at heq
         · simp at heq
         · rename_i it s3 h3
@@ -599,16 +620,18 @@ theorem programMatch_P {f : F} (hf : FP e0 f) {fuel : Nat} {unit main0 : Cls} {s
       have := addCID_rel (L env) fuel [] s; rw [h1] at this; exact this
     split at heq
     · simp at heq
-    · rename_i rc s2 h2
+    · simp at heq
+    · rename_i rc e' s2 h2
       have l2 : LogExt s1 s2 := by
-        have := programLoop_rel (L env) hf.log unit fuel fuel rc0 s1; rw [h2] at this; exact this
-      have l3 : LogExt s2 (ghostIf (!rc.isEmpty) Ghost.progDrop (s2.ev (Ev.ghost Ghost.fallback))) :=
-        LogExt.trans ⟨[_], rfl⟩ (ghostIf_rel (L env) _ _ _)
-      exact (blockMatch_P hfor horc hf heq).mono (l1.trans (l2.trans l3)) (LogExt.refl _)
-    · rename_i rc e' s2 _ h2
-      simp only [Prod.mk.injEq, MRes.raise.injEq] at heq
-      obtain ⟨rfl, rfl⟩ := heq
-      exact (programLoop_P hfor horc hf h2).mono l1 (LogExt.refl _)
+        have := programLoop_rel (L env) hf.log unit main0 fuel fuel rc0 s1
+        rw [h2] at this; exact this
+      split at heq
+      · have l3 : LogExt s2 (ghostIf (!rc.isEmpty) Ghost.progDrop (s2.ev (Ev.ghost Ghost.fallback))) :=
+          LogExt.trans ⟨[_], rfl⟩ (ghostIf_log _ _ _)
+        exact (blockMatch_P hfor horc hf heq).mono (l1.trans (l2.trans l3)) (LogExt.refl _)
+      · simp only [Prod.mk.injEq, MRes.raise.injEq] at heq
+        obtain ⟨rfl, rfl⟩ := heq
+        exact (programLoop_P hfor horc hf h2).mono l1 (LogExt.refl _)
 
 omit horc in
 theorem altLoop_P {g : G} (hg : GP e0 g) {ds pc : List Cls} {s : St} {e : Exc} {pc' : List Cls}
@@ -692,7 +715,7 @@ theorem eval_P (fuel : Nat) : GP e0 (eval env fuel) := by
       generalize hb : seqNR env.tbl.quirks (fresh (eval env fuel)) cs [] s = br at heq
       obtain ⟨r, s1⟩ := br
       refine finish_P hfor ih ?_ ?_ heq
-      · have := seqNR_rel (L env) hf.log env.tbl.quirks cs [] s; rw [hb] at this; exact this
+      · have := seqNR_log env hf.log env.tbl.quirks cs [] s; rw [hb] at this; exact this
       · intro e' he'; subst he'; exact seqNR_P env hf hb
     · rename_i cfg scope subs _
       generalize hb : main0Match env (fresh (eval env fuel)) fuel cfg scope s = br at heq
@@ -750,15 +773,24 @@ end
 
 variable {env : Env}
 
-theorem programLoop_done_empty {f : F} {unit : Cls} {fuel k : Nat} {rc : List Tree} {s : St}
-    {rc' : List Tree} {s' : St} (heq : programLoop env f unit fuel k rc s = (.done rc', s')) :
-    s'.all = [] := by
+theorem programLoop_done_empty {f : F} {unit main0 : Cls} {fuel k : Nat} {rc : List Tree} {s : St}
+    {rc' : List Tree} {s' : St}
+    (heq : programLoop env f unit main0 fuel k rc s = (.done rc', s')) : s'.all = [] := by
   induction k generalizing rc s with
   | zero => simp [programLoop] at heq
   | succ k ih =>
     simp only [programLoop] at heq
     split at heq
-    · simp at heq
+    · rename_i r1 s1 h1
+      exfalso
+      simp only [Prod.mk.injEq] at heq
+      obtain ⟨rfl, _⟩ := heq
+      unfold unitStep at h1
+      split at h1
+      · split at h1
+        · split at h1 <;> simp at h1
+        · simp at h1
+      · simp at h1
     · split at heq
       · simp at heq
       · split at heq
@@ -767,10 +799,12 @@ theorem programLoop_done_empty {f : F} {unit : Cls} {fuel k : Nat} {rc : List Tr
           rw [← heq.2]; exact (St.get_none_all h3).2
         · exact ih heq
 
+/-- in the repaired variant the tuple can only come from the end of the loop; in the pinned
+one it may come from the fall-back, which logs a `fallback` event -/
 theorem programMatch_consumes {f : F} (hf : FRel LogExt f) {fuel : Nat} {unit main0 : Cls} {s : St}
     {content : List Tree} {s' : St}
-    (heq : programMatch env f fuel unit main0 s = (.tuple content, s')) (hfb : FB s' = FB s) :
-    s'.all = [] := by
+    (heq : programMatch env f fuel unit main0 s = (.tuple content, s'))
+    (hfb : env.tbl.quirks.programContinues = true ∨ FB s' = FB s) : s'.all = [] := by
   unfold programMatch at heq
   split at heq
   · simp at heq
@@ -781,27 +815,34 @@ theorem programMatch_consumes {f : F} (hf : FRel LogExt f) {fuel : Nat} {unit ma
     · rename_i rc s2 h2
       simp only [Prod.mk.injEq, MRes.tuple.injEq] at heq
       rw [← heq.2]; exact programLoop_done_empty h2
-    · rename_i rc s2 h2
-      exfalso
-      have l2 : LogExt s1 s2 := by
-        have := programLoop_rel (L env) hf unit fuel fuel rc0 s1; rw [h2] at this; exact this
-      have l3 : LogExt (s2.ev (Ev.ghost Ghost.fallback)) s' := by
-        have h4 := blockMatch_rel (L env) hf fuel
-          { start := some main0, subs := [], end_ := none }
-          (ghostIf (!rc.isEmpty) Ghost.progDrop (s2.ev (Ev.ghost Ghost.fallback)))
-        rw [heq] at h4
-        exact (ghostIf_rel (L env) _ _ _).trans h4
-      have m1 := FB_mono l1; have m2 := FB_mono l2; have m3 := FB_mono l3
-      have : FB (s2.ev (Ev.ghost Ghost.fallback)) = FB s2 + 1 := by
-        simp [FB, St.ev, List.filter_cons, isFallback]
-      omega
     · simp at heq
+    · rename_i rc e s2 h2
+      split at heq
+      · rename_i hc
+        exfalso
+        simp only [Bool.and_eq_true, beq_iff_eq, Bool.not_eq_true'] at hc
+        rcases hfb with hq | hfb
+        · rw [hq] at hc; exact absurd hc.2 (by simp)
+        · have l2 : LogExt s1 s2 := by
+            have := programLoop_rel (L env) hf unit main0 fuel fuel rc0 s1
+            rw [h2] at this; exact this
+          have l3 : LogExt (s2.ev (Ev.ghost Ghost.fallback)) s' := by
+            have h4 := blockMatch_rel (L env) hf fuel (fallbackCfg main0)
+              (ghostIf (!rc.isEmpty) Ghost.progDrop (s2.ev (Ev.ghost Ghost.fallback)))
+            rw [heq] at h4
+            exact (ghostIf_log _ _ _).trans h4
+          have m1 := FB_mono l1; have m2 := FB_mono l2; have m3 := FB_mono l3
+          have : FB (s2.ev (Ev.ghost Ghost.fallback)) = FB s2 + 1 := by
+            simp [FB, St.ev, List.filter_cons, isFallback]
+          omega
+      · simp at heq
 
 /-- `Program(reader)` returned a tree and no fall-back to `Main_Program0` happened in this
 run: the whole input was consumed -/
 theorem program_consumes_eval (env : Env) (fuel : Nat) (c unit main0 : Cls) (pc pc' : List Cls)
     (st st' : St) (t : Tree) (hk : env.tbl.kind c = .program unit main0 [])
-    (heq : eval env (fuel + 1) c pc st = (.tree t, pc', st')) (hfb : FB st' = FB st) :
+    (heq : eval env (fuel + 1) c pc st = (.tree t, pc', st'))
+    (hfb : env.tbl.quirks.programContinues = true ∨ FB st' = FB st) :
     st'.stream.all = [] := by
   simp only [eval, hk] at heq
   generalize hb : programMatch env (fresh (eval env fuel)) fuel unit main0 st = br at heq
